@@ -386,6 +386,32 @@ Definition close_world (w : world) : world :=
 Definition session (N : Z) (p0 : peer) (negs : list negout) (evs : list event) : world :=
   run N (boot negs (world0 N p0)) evs.
 
+(* ---- several sessions on ONE RadioDriver object (and one link object = the driver itself) ----
+   pause() + restart():  the thread is stopped and a NEW _RadioDriverThread is made with the SAME in_queue and
+                         out_queue; close() + connect(): the thread is stopped, out_queue is emptied, NEW queues
+                         are made, then a new thread.  Either way the new thread starts from its __init__ values
+                         (_has_safelink False, _curr_up 0, _curr_down 1, retry counter N) and from fresh locals
+                         (dataOut = [0xFF], ackStatus None): the frame in flight is gone.  What survives on the
+                         driver object: needs_resending (until the new start-up loop has run), the queues
+                         (restart only).  The peer is whatever it is.  The logs and callback counts go on. *)
+Inductive reopen := Restart | Reconnect.
+
+Definition host_reopen (N : Z) (how : reopen) (h : host) : host :=
+  mkHost false false true [255] N
+         (match how with Restart => h_outq h | Reconnect => None end)
+         (match how with Restart => h_inq h | Reconnect => [] end)
+         (h_errs h) (h_needs h).
+
+Definition reopen_world (N : Z) (how : reopen) (w : world) : world :=
+  mkW (host_reopen N how (w_h w)) (w_p w) (w_accepted w) (w_queued w) (w_got w) RNone (w_xerrs w) (w_serrs w).
+
+Definition next_session (N : Z) (w : world) (s : reopen * list negout * list event) : world :=
+  let '(how, negs, evs) := s in run N (boot negs (reopen_world N how w)) evs.
+
+Definition history (N : Z) (p0 : peer) (negs : list negout) (evs : list event)
+           (more : list (reopen * list negout * list event)) : world :=
+  fold_left (next_session N) more (session N p0 negs evs).
+
 (* ------------------------------------------------------------------ what the theorems talk about *)
 
 Definition olist {A} (o : option A) : list A := match o with Some x => [x] | None => [] end.
@@ -559,3 +585,24 @@ Definition ack_obs (a : option radio_ack) : list Z :=
   | None => [-1]
   | Some x => [b2 (a_ack x); b2 (a_pdet x); a_retry x; Z.of_nat (length (a_data x))] ++ a_data x
   end.
+
+(* several sessions: per session the start-up answers and the event observations; final state at the end *)
+Definition part_obs (N : Z) (w : world) (negs : list negout) (evs : list event) : list Z * world :=
+  let '(_, _, rs) := boot_loop 10 negs (w_p w) in
+  let '(os, w1) := run_obs N (boot negs w) evs in
+  ((Z.of_nat (length rs) :: concat (map resp_obs rs)) ++ os, w1).
+
+Fixpoint more_obs (N : Z) (w : world) (more : list (reopen * list negout * list event)) : list Z * world :=
+  match more with
+  | [] => ([], w)
+  | (how, negs, evs) :: t =>
+      let '(o, w1) := part_obs N (reopen_world N how w) negs evs in
+      let '(os, w2) := more_obs N w1 t in
+      ((b2 (h_safe (w_h w1)) :: b2 (h_needs (w_h w1)) :: o) ++ os, w2)
+  end.
+
+Definition history_obs (N : Z) (p0 : peer) (negs : list negout) (evs : list event)
+           (more : list (reopen * list negout * list event)) (close : bool) : list Z :=
+  let '(o, w1) := part_obs N (world0 N p0) negs evs in
+  let '(os, w2) := more_obs N w1 more in
+  (b2 (h_safe (w_h w1)) :: b2 (h_needs (w_h w1)) :: o) ++ os ++ world_obs (if close then close_world w2 else w2).
